@@ -33,7 +33,8 @@ def scenarios(prop, quick, seed):
     for j in range(n):
         pol = ["random", "pct", "free", "pct"][j % 4]
         base = {"writers": 2 + j % 3, "ops": 3 + j % 4, "keys": 1 + j % 3, "wt": [], "setmax": [], "syncexec": 0,
-                "policy": pol, "seed": seed * 100000 + j, "points": "pub" if j % 5 else "all", "expiry": (j // 2) % 2}
+                "policy": pol, "seed": seed * 100000 + j, "points": "pub" if j % 5 else "all", "expiry": (j // 2) % 2,
+                "invall": [0, 0, 1, 0, 0, 2][j % 6]}
         if prop == "C04":
             kind = j % 3
             if kind == 0:
